@@ -293,8 +293,15 @@ impl ZReorderMap {
         // Extract actual value (shift right to remove encoding bit)
         self.current_value = encoded_value >> 1;
 
-        // Sequence: read var_uint for length
-        self.seq_length = self.read_var_uint()?;
+        // Sequence: read var_uint for length. The writer never emits an empty run, and
+        // the iterator counts the run down, so a zero here can only come from a damaged file.
+        let seq_length = self.read_var_uint()?;
+        if seq_length == 0 {
+            return Err(ZiporaError::invalid_data(
+                "ZReorderMap: sequence entry with zero length"
+            ));
+        }
+        self.seq_length = seq_length;
 
         // Validate position after var_uint read
         if self.pos > self.mmap.len() {
